@@ -35,6 +35,8 @@ impl<P: Write> WriteBuffer for IoBuffer<P> {
                 }
             }
         }
+        // Like the async sender: a sent message must not stay behind in a buffering sink.
+        self.pipe.flush()?;
         self.buffer.clear();
         Ok(())
     }
